@@ -1042,11 +1042,11 @@ theorem setup_mode (um : Nat) (pre : List Ev) (p : Nat) (c : Bool) (hpre : ∀ e
   cases c <;> simp [modeAfter, setupMode]
 
 /-- everything the property theorems need to know about the result of a save -/
-structure Res (cfg : Cfg) (fs0 : FS) (e : Nat) (body : Body) (plan : Plan) (out : Outcome) (m : M) (s : St) (W : Bytes) : Prop where
+structure Res (cfg : Cfg) (fs0 : FS) (e : Nat) (raises : Bool) (content : Bytes) (plan : Plan) (out : Outcome) (m : M) (s : St) (W : Bytes) : Prop where
   j : J fs0 m s W
   envIno : m.envIno = e
-  ok : out = .ok → s.phase = .done ∧ m.errs = 0 ∧ body.raises = false
-  pub : s.published = true → body.raises = false ∧ W = newContent body ∧ (out = .ok ∨ cfg.overwrite = false) ∧
+  ok : out = .ok → s.phase = .done ∧ m.errs = 0 ∧ raises = false
+  pub : s.published = true → raises = false ∧ W = content ∧ (out = .ok ∨ cfg.overwrite = false) ∧
           (cfg.overwrite = false → Ev.linkPartDest ∈ m.tr) ∧
           ∃ p c, m.tr.foldl (modeAfter fs0.umask) none = some (setupMode fs0.umask p c) ∧
             ((∀ k, plan k ≠ .appear) → (∀ k, plan k ≠ .fail ENOENT) → (p, c) = choosePerms cfg fs0)
@@ -1056,7 +1056,7 @@ structure Res (cfg : Cfg) (fs0 : FS) (e : Nat) (body : Body) (plan : Plan) (out 
   refused : fs0.dir.dest ≠ none → cfg.overwrite = false → out = .osErr EEXIST ∧ m.fs = fs0 ∧ m.tr = []
 
 theorem runSave_spec (cfg : Cfg) (fs0 : FS) (e : Nat) (body : Body) (plan : Plan) :
-    ∃ s W, Res cfg fs0 e body plan (runSave cfg body plan fs0 e).1 (runSave cfg body plan fs0 e).2 s W := by
+    ∃ s W, Res cfg fs0 e body.raises (newContent body) plan (runSave cfg body plan fs0 e).1 (runSave cfg body plan fs0 e).2 s W := by
   unfold runSave
   obtain ⟨sok, sfail⟩ := setup_spec cfg fs0 e plan
   have href : fs0.dir.dest ≠ none → cfg.overwrite = false →
@@ -1882,7 +1882,7 @@ theorem runSave_X (cfg : Cfg) (body : Body) (plan : Plan) (fs0 : FS) (e : Nat) (
 
 /-! ### small facts used by the property theorems -/
 
-theorem res_pub {cfg fs0 e body plan o m s W} (r : Res cfg fs0 e body plan o m s W) :
+theorem res_pub {cfg fs0 e rs ct plan o m s W} (r : Res cfg fs0 e rs ct plan o m s W) :
     s.published = m.published := by
   have := (published_run m.tr St.init s r.j.run).1
   have hinit : St.init.published = false := by decide
